@@ -83,7 +83,7 @@ func (wr *writer) writeInt64(tag uint8, v int64) {
 	buf[5] = byte(v >> 40)
 	buf[6] = byte(v >> 48)
 	buf[7] = byte(v >> 56)
-	wr.writeBytes(tag, buf[:4])
+	wr.writeBytes(tag, buf[:8])
 }
 
 func (wr *writer) writeUint64(tag uint8, v uint64) {
